@@ -142,9 +142,11 @@ func replayAll(t *testing.T, id string, run func(raw json.RawMessage) outcome) {
 			continue
 		}
 		var o outcome
+		r.Journal(json.RawMessage(fl.Case), "replay of "+filepath.Base(f))
 		if p := guard(func() { o = run(fl.Case) }); p != "" {
 			o = outcome{msg: "harness/replay " + p, sig: "panic"}
 		}
+		r.JournalDone()
 		r.Eval()
 		r.Count("replayed")
 		if !o.failed() {
